@@ -1124,7 +1124,7 @@ def run_td(ctx, rank=False):
         td_e3(ctx, 40)
         td_real(ctx, 60)
         if rank:
-            td_rank(ctx, 24, 20000)
+            td_rank(ctx, 32, 20000)
     else:
         td_e1(ctx, [("any", 2, 1, 1, [0, 1, 2, 3], [0, 1, 2], 6), ("K0", 2, 1, 1, [0, 1, 2, 3], [0, 1, 2], 6), ("K0", 3, 2, 0, [0, 1, 2, 3], [1, 2], 6),
                     ("K0", 4, 1, 3, [0, 1, 2, 3], [0, 1, 2], 6), ("any", 2, 1, 3, [0, 1, 2], [1, 4], 6)],
